@@ -13,6 +13,7 @@ Inductive kind :=
 | KEval | KExec | KCompile | KImport      (* run or load code *)
 | KOpen                                   (* file access *)
 | KOs | KProcess | KSocket | KOther       (* operating system, processes, network, object deserialisation *)
+| KState                                  (* process-wide state: memoising decorator, store into module/class-level data *)
 | KSetattr | KGetattr | KFormat.          (* reflective: computed attribute name / computed format string *)
 
 Record sink := Sink { s_node : N; s_kind : kind; s_line : N; s_args : list prov; s_flag : bool }.
@@ -45,9 +46,10 @@ Definition prov_le_registry (p : prov) : bool := match p with PConst | PRegistry
 Definition has_text (s : sink) : bool := existsb is_text (s_args s).
 
 Definition code_or_effect (k : kind) : bool :=
-  match k with KEval | KExec | KCompile | KImport | KOs | KProcess | KSocket | KOther => true | _ => false end.
+  match k with KEval | KExec | KCompile | KImport | KOs | KProcess | KSocket | KOther | KState => true | _ => false end.
 
-(* a sink through which parsed text could run code, start a process, reach the network or the file system *)
+(* a sink through which parsed text could run code, start a process, reach the network or the file system,
+   or be retained in process-wide state (memo tables, module-level containers) *)
 Definition bad_sink (s : sink) : bool :=
   match s_kind s with
   | KOpen => match s_args s with
@@ -71,7 +73,7 @@ Definition sinks_in (R : list N) (ss : list sink) : list sink := filter (fun s =
 Definition kind_eqb (a b : kind) : bool :=
   match a, b with
   | KEval, KEval | KExec, KExec | KCompile, KCompile | KImport, KImport | KOpen, KOpen | KOs, KOs
-  | KProcess, KProcess | KSocket, KSocket | KOther, KOther | KSetattr, KSetattr | KGetattr, KGetattr
+  | KProcess, KProcess | KSocket, KSocket | KOther, KOther | KState, KState | KSetattr, KSetattr | KGetattr, KGetattr
   | KFormat, KFormat => true
   | _, _ => false
   end.
